@@ -233,11 +233,12 @@ def do_determinism(binary, prop, tier, seed, n, scratch):
 
 def explore(binary, prop, tier, seed, budget, workers, max_runs, scratch, spec, engine, build_s, t_start):
     procs = []
-    shrink = 400 if tier == "thorough" else 250
+    shrink = 400 if tier == "thorough" else 150
+    known_sigs = [k["class"] + "|" + k["signature"] for k in load_known() if k["property"] == prop]
     for w in range(workers):
         out = os.path.join(scratch, "w%d.json" % w)
         job = dict(property=prop, profile="default", tier=tier, seed=seed, first=w, stride=workers, max_runs=max_runs, budget_s=budget, out=out,
-                   scratch=scratch, shrink_budget=shrink)
+                   scratch=scratch, shrink_budget=shrink, known=known_sigs)
         procs.append((run_worker(binary, job, os.path.join(scratch, "job%d.json" % w), budget), out, w))
     sums = []
     for p, out, w in procs:
